@@ -1315,7 +1315,8 @@ private:
         bool quote = false;
         if (quote_style_ == quote_style_kind::all || quote_style_ == quote_style_kind::nonnumeric ||
             (quote_style_ == quote_style_kind::minimal &&
-            (std::char_traits<CharT>::find(s, length, field_delimiter_) != nullptr || std::char_traits<CharT>::find(s, length, quote_char_) != nullptr)))
+            (std::char_traits<CharT>::find(s, length, field_delimiter_) != nullptr || std::char_traits<CharT>::find(s, length, quote_char_) != nullptr ||
+             std::char_traits<CharT>::find(s, length, CharT('\n')) != nullptr || std::char_traits<CharT>::find(s, length, CharT('\r')) != nullptr)))
         {
             quote = true;
             str.push_back(quote_char_);
